@@ -246,7 +246,7 @@ func (f *function) evaluate() (data string, changed bool, err error) {
 
 	var buf bytes.Buffer
 	b64 := base64.NewEncoder(base64.StdEncoding, &buf)
-	if err := pickle.NewEncoder(b64, pickle.PicklerFunc(envPickler)).Encode(f.function); err != nil {
+	if err := pickle.NewEncoder(b64, envPicklerT{}).Encode(f.function); err != nil {
 		return "", false, err
 	}
 	b64.Close()
@@ -290,7 +290,7 @@ func (f *function) load() error {
 // pickler.
 func functionEnv(f starlark.Callable) (starlark.Value, error) {
 	var buf bytes.Buffer
-	if err := pickle.NewEncoder(&buf, pickle.PicklerFunc(envPickler)).Encode(f); err != nil {
+	if err := pickle.NewEncoder(&buf, envPicklerT{}).Encode(f); err != nil {
 		return nil, err
 	}
 	return pickle.NewDecoder(&buf, pickle.UnpicklerFunc(envUnpickler)).Decode()
@@ -318,6 +318,27 @@ func envPickler(x starlark.Value) (module, name string, args starlark.Tuple, err
 	}
 }
 
+// envPicklerT is the pickle.RecursivePickler used for function environments. A recursive (or
+// mutually recursive) function is one of the globals or free variables of its own code; the
+// reference back to a function that is still being pickled is pickled as
+// (NEWOBJ "dawn" "Recursive" (name)).
+type envPicklerT struct{}
+
+func (envPicklerT) Pickle(x starlark.Value) (module, name string, args starlark.Tuple, err error) {
+	return envPickler(x)
+}
+
+func (envPicklerT) PickleRecursive(x starlark.Value) (module, name string, args starlark.Tuple, err error) {
+	switch x := x.(type) {
+	case *starlark.FunctionCode:
+		return "dawn", "Recursive", starlark.Tuple{starlark.String(x.Name())}, nil
+	case *starlark.Function:
+		return "dawn", "Recursive", starlark.Tuple{starlark.String(x.Name())}, nil
+	default:
+		return "dawn", "Recursive", starlark.Tuple{starlark.String(x.Type())}, nil
+	}
+}
+
 // envUnpickler provides support for unpickling functions and modules.
 //
 //   - Builtins are unpickled from (NEWOBJ "dawn" "Builtin" ()) into ()
@@ -336,6 +357,11 @@ func envUnpickler(module, name string, args starlark.Tuple) (starlark.Value, err
 			return nil, fmt.Errorf("expcted 1 arg, got %v", len(args))
 		}
 		return args[0], nil
+	case "Recursive":
+		if len(args) != 1 {
+			return nil, fmt.Errorf("expcted 1 arg, got %v", len(args))
+		}
+		return starlark.Tuple{starlark.String("recursive reference"), args[0]}, nil
 	case "Builtin":
 		if len(args) != 0 {
 			return nil, fmt.Errorf("expected 0 args, got %v", len(args))
